@@ -1,5 +1,5 @@
 /-
-C18 — decimal and integer text, JSON and width conversions are lossless.
+C18 — decimal and integer text, JSON (with escape sequences) and width conversions are lossless.
 Text is a byte list (`Halo.Text`); `denote` / `valOf` give the number a numeral denotes, independently
 of the parser; `canonicalDec` / `canonicalInt` recognise the canonical numerals
 `0|[1-9][0-9]*` (optionally `.` and 1–18 digits not ending in `0`).
@@ -45,15 +45,68 @@ theorem dec_json_roundtrip {v : Nat} (h : v < U) : (jsonDec (jsonEnc (decRender 
 theorem uint_json_roundtrip {v : Nat} (h : v < U) : (jsonDec (jsonEnc (uintRender v)) >>= uintParse) = .ok v :=
   Halo.C18.uint_json_roundtrip h
 
-/-- width conversions: `u128 → Uint256 → u128` is the identity; narrowing aborts iff the value does not fit.
-(`Decimal ↔ Decimal256` go through `to_string` / `from_str`, i.e. through `dec_parse_render`.) -/
+/-- unescaping does nothing to an ASCII text without a backslash (in particular to every rendered numeral) -/
+theorem jsonUnescape_id {s : List Nat} (h : ∀ b ∈ s, b ≠ 92 ∧ b < 128) : jsonUnescape s = .ok s :=
+  Halo.C18.jsonUnescape_id h
+
+/-- JSON escapes are transparent: an accepted JSON text is whitespace, a quoted body, whitespace, and the
+value is exactly the number denoted by the *unescaped* body (`"\u0031"` is 1, `"1\u002e5"` is 1.5) -/
+theorem json_parse_denotes {j : List Nat} {v : Nat} (h : (jsonDec j >>= decParse) = .ok v) :
+    ∃ pre body post s, j = pre ++ [34] ++ body ++ [34] ++ post ∧
+      pre.all isJsonWs = true ∧ post.all isJsonWs = true ∧
+      jsonUnescape body = .ok s ∧ decParse s = .ok v ∧ denote s = some v ∧ v < U :=
+  Halo.C18.json_parse_denotes_dec h
+theorem json_parse_denotes_uint {j : List Nat} {v : Nat} (h : (jsonDec j >>= uintParse) = .ok v) :
+    ∃ pre body post s, j = pre ++ [34] ++ body ++ [34] ++ post ∧
+      pre.all isJsonWs = true ∧ post.all isJsonWs = true ∧
+      jsonUnescape body = .ok s ∧ parseDigits s = .ok v ∧ s.all isDigit = true ∧ valOf s = v ∧ v < U :=
+  Halo.C18.json_parse_denotes_uint h
+
+/-- width conversions: `u128 → Uint256 → u128` is the identity; narrowing aborts iff the value does not fit -/
 theorem u128_roundtrip {w : Nat} (h : w < W) : toU128 (ofU128 w) = .ok w :=
   Halo.C18.u128_roundtrip h
 theorem narrowing_iff {v r : Nat} (h : v < U) : toU128 v = .ok r ↔ v < W ∧ r = v := Halo.toU128_ok h
+
+/-- `Decimal256 → cosmwasm Decimal` (two limb `assert!`s, then `to_string` / `from_str`) preserves the
+atomics or aborts: it succeeds iff the atomics fit 128 bits, and is then the identity on them; it is the
+limb check `toU128` and nothing else -/
+theorem dec_to_std_iff {v r : Nat} (h : v < U) : decToStd v = .ok r ↔ v < W ∧ r = v :=
+  Halo.C18.dec_to_std_iff h
+theorem dec_to_std_abort {v : Nat} (h : v < U) : decToStd v = .error .abort ↔ W ≤ v :=
+  Halo.C18.dec_to_std_abort h
+theorem dec_to_std_eq {v : Nat} (h : v < U) : decToStd v = toU128 v := Halo.C18.decToStd_eq h
+/-- `cosmwasm Decimal → Decimal256` (through `to_string` / `from_str`) is the identity on the atomics -/
+theorem dec_from_std_id {a : Nat} (h : a < W) : decFromStd a = .ok a :=
+  Halo.C18.dec_from_std_id h
+theorem dec_std_roundtrip {a : Nat} (h : a < W) : (decFromStd a >>= decToStd) = .ok a :=
+  Halo.C18.dec_std_roundtrip h
 
 example : decRender 1500000000000000000 = [49, 46, 53] := by decide +kernel
 example : decParse [49, 46, 53] = .ok 1500000000000000000 := by decide +kernel
 example : decParse [] = .ok 0 := by decide +kernel
 example : decParse [49, 46, 50, 46, 51] = .error .err := by decide +kernel
+
+/-- `"\u0031"` is 1 (as a decimal: 10^18 atomics) -/
+example : (jsonDec [34, 92, 117, 48, 48, 51, 49, 34] >>= decParse) = .ok 1000000000000000000 := by
+  decide +kernel
+example : (jsonDec [34, 92, 117, 48, 48, 51, 49, 34] >>= uintParse) = .ok 1 := by decide +kernel
+/-- `"1\u002e5"` is 1.5 -/
+example : (jsonDec [34, 49, 92, 117, 48, 48, 50, 101, 53, 34] >>= decParse) = .ok 1500000000000000000 := by
+  decide +kernel
+/-- `"\u0031\u0032"` is 12, `"\u002E"` is the decimal 0, whitespace around the string is fine -/
+example : (jsonDec [32, 34, 92, 117, 48, 48, 51, 49, 92, 117, 48, 48, 51, 50, 34, 10] >>= uintParse) = .ok 12 := by
+  decide +kernel
+example : (jsonDec [34, 92, 117, 48, 48, 50, 69, 34] >>= decParse) = .ok 0 := by decide +kernel
+/-- malformed escapes are errors: `"\x"`, `"\u12"`, `"\ud800"`, `"1\"` ; so is a raw control byte next to
+an escape (`"\u0031<TAB>"`) and an unescaped quote inside (`"1"2"`) -/
+example : jsonDec [34, 92, 120, 34] = .error .err := by decide +kernel
+example : jsonDec [34, 92, 117, 49, 50, 34] = .error .err := by decide +kernel
+example : jsonDec [34, 92, 117, 100, 56, 48, 48, 34] = .error .err := by decide +kernel
+example : jsonDec [34, 49, 92, 34] = .error .err := by decide +kernel
+example : jsonDec [34, 92, 117, 48, 48, 51, 49, 9, 34] = .error .err := by decide +kernel
+example : jsonDec [34, 49, 34, 50, 34] = .error .err := by decide +kernel
+/-- a surrogate pair is one character: `"\ud83d\ude00"` is U+1F600, `f0 9f 98 80` -/
+example : jsonDec [34, 92, 117, 100, 56, 51, 100, 92, 117, 100, 101, 48, 48, 34] = .ok [240, 159, 152, 128] := by
+  decide +kernel
 
 end Halo.Props.C18
